@@ -146,8 +146,34 @@ def do_first(ids):
         print(sid, meta["first_outcome"]["result"], r.get("fired"))
 
 
+def do_cross(ids):
+    """Which OTHER properties' checks report a seeded change (applied in memory)."""
+    sys.path.insert(0, VERIF)
+    from djc_sa.cli import CLAIMED
+    from djc_sa.selftest import _run, apply_unified_diff
+    from djc_sa.source import Project
+
+    for sid in sorted(os.listdir(SEEDED)):
+        if not any(sid == i or sid.startswith(i) for i in ids):
+            continue
+        files = Project.read_files("/repo")
+        why = apply_unified_diff(files, open(os.path.join(SEEDED, sid, "patch.diff")).read())
+        if why:
+            print(sid, "does not apply:", why)
+            continue
+        proj = Project("/repo", files, "overlay")
+        hits = []
+        for p in CLAIMED:
+            code, fired = _run(p, proj)
+            if code != 0:
+                hits.append((p, code, fired))
+        print(sid, hits)
+
+
 if __name__ == "__main__":
-    if sys.argv[1] == "first":
+    if sys.argv[1] == "cross":
+        do_cross(sys.argv[2:])
+    elif sys.argv[1] == "first":
         do_first(sys.argv[2:])
     elif sys.argv[1] == "import":
         do_import(sys.argv[2], sys.argv[3], sys.argv[4] if len(sys.argv) > 4 else "")
